@@ -43,7 +43,9 @@ func VH_S_Fire() {
 			// and conversely: the transaction that creates this occurrence's promise (it names the schedule in its
 			// tags) is the one that advances the schedule, otherwise the occurrence would be found due again
 			mine := vx.And(vx.MapHas(p1.Map("tags"), "resonate:schedule"), vx.MapGet(p1.Map("tags"), "resonate:schedule") == a.Str("id"))
-			vx.Assert(vx.Implies(vx.And(a.Present(), occ <= t0, !p0.Present(), p1.Present(), mine), changed), "C10:schedule-advanced-with-its-promise")
+			r0 := vx.Lookup(vx.YieldPost(0), "schedules", a.Str("id")) // the row as the sweep read it
+			same := vx.And(r0.Present(), r0.Int("next_run_time") == occ)
+			vx.Assert(vx.Implies(vx.And(a.Present(), same, occ <= t0, !p0.Present(), p1.Present(), mine), changed), "C10:schedule-advanced-with-its-promise")
 			want := a.Map("promise_tags")
 			want["resonate:schedule"] = a.Str("id")
 			want["resonate:invocation"] = "true"
